@@ -151,17 +151,31 @@ def rangeFinish : Res (List Value) → Res Value
   | .ok vals => if vals.length == 0 then .ok (listEmpty .number) else Gocty.listVal vals
   | r => Res.cast r
 
+/-- `step.RawEquals(cty.Zero)` on the number itself -/
+def isZeroStep (s : Num) : Bool := Num.rawEqual s (.fin false 0 0 53)
+
+/-- every zero — either sign, any precision — is `RawEquals` to `cty.Zero` -/
+theorem isZeroStep_zero (n : Bool) (p : Nat) : isZeroStep (.fin n 0 0 p) = true := by
+  cases n <;> simp [isZeroStep, Num.rawEqual, Num.sign, Num.isInt, Num.truncInt]
+
+/-- a zero step is rejected -/
+theorem rangeImpl_three_zero (E : Env) (a b : Value) (s : Num) (hz : isZeroStep s = true) (retTy : Ty) :
+    rangeImpl E [a, b, numVal s] retTy = .err "step must not be zero" := by
+  have hzn : isZeroNum (numVal s) = true := hz
+  simp [rangeImpl, hzn]
+
 theorem isInfNum_of_fin (s : Num) (hf : isFin s = true) : isInfNum (numVal s) = false := by
   cases s <;> simp_all [isFin, isInfNum, numVal]
 
-theorem rangeImpl_three (E : Env) (hz : E.stepIsZeroSingleton = false) (a b s : Num) (retTy : Ty)
+theorem rangeImpl_three (E : Env) (a b s : Num) (hz : isZeroStep s = false) (retTy : Ty)
     (hf : isFin s = true) :
     rangeImpl E [numVal a, numVal b, numVal s] retTy =
       if dirOk (stepDown s) a b then rangeFinish (rangeLoop (stepDown s) (numVal b) (numVal s) 1025 (numVal a) [])
       else .err "end must be on the side of start that step points to" := by
   have hlt : isTrueR (Value.lessThan (numVal s) zero) = .ok (stepDown s) := by
     simp [zero, lessThan_num, stepDown, isTrueR_bool]
-  simp only [rangeImpl, hz, Bool.false_eq_true, if_false, hlt, isInfNum_of_fin s hf]
+  have hzn : isZeroNum (numVal s) = false := hz
+  simp only [rangeImpl, hzn, Bool.false_eq_true, if_false, hlt, isInfNum_of_fin s hf]
   cases hd : stepDown s
   · simp only [dirOk, lessThan_num, isTrueR_bool, Res.map, Bool.false_eq_true, if_false]
     by_cases hc : Num.cmp b a < 0
@@ -185,11 +199,11 @@ theorem listVal_nums (vals : List Num) (hne : vals ≠ []) :
 /-- **`range(start, end, step)`** inside its domain: the arithmetic progression
 from `start` by `step` (big-float addition as `Value.Add` performs it) up to but
 excluding the first term at or beyond `end` -/
-theorem rangeImpl_three_ok (E : Env) (hz : E.stepIsZeroSingleton = false) (a b s : Num) (retTy : Ty)
+theorem rangeImpl_three_ok (E : Env) (a b s : Num) (hz : isZeroStep s = false) (retTy : Ty)
     (hf : isFin s = true) (hdir : dirOk (stepDown s) a b = true) (vals : List Num)
     (hp : Spec.IsProgression (nextNum s) (reached (stepDown s) b) a vals) (hlen : vals.length ≤ 1024) :
     rangeImpl E [numVal a, numVal b, numVal s] retTy = .ok (mkList .number (vals.map Payload.n)) := by
-  rw [rangeImpl_three E hz a b s retTy hf, hdir]
+  rw [rangeImpl_three E a b s hz retTy hf, hdir]
   have := rangeLoop_ok (stepDown s) b s hf vals [] a 1025 hp (by simpa using hlen) (by omega)
   simp only [List.map_nil, List.nil_append] at this
   simp only [if_true, this, rangeFinish, List.length_map]
@@ -201,11 +215,11 @@ theorem rangeImpl_three_ok (E : Env) (hz : E.stepIsZeroSingleton = false) (a b s
     exact listVal_nums vals (fun h => h0 (by simp [h]))
 
 /-- more than 1024 elements: an error -/
-theorem rangeImpl_three_limit (E : Env) (hz : E.stepIsZeroSingleton = false) (a b s : Num) (retTy : Ty)
+theorem rangeImpl_three_limit (E : Env) (a b s : Num) (hz : isZeroStep s = false) (retTy : Ty)
     (hf : isFin s = true)
     (hmany : ∀ k, k ≤ 1024 → reached (stepDown s) b (Spec.iterNth (nextNum s) k a) = false) :
     Fails (rangeImpl E [numVal a, numVal b, numVal s] retTy) := by
-  rw [rangeImpl_three E hz a b s retTy hf]
+  rw [rangeImpl_three E a b s hz retTy hf]
   by_cases hdir : dirOk (stepDown s) a b = true
   · obtain ⟨c, hc⟩ := rangeLoop_limit (stepDown s) b s hf 1025 [] a (by simpa using hmany) (by simp) (by simp)
     simp only [List.map_nil] at hc
@@ -214,10 +228,10 @@ theorem rangeImpl_three_limit (E : Env) (hz : E.stepIsZeroSingleton = false) (a 
   · simp only [hdir]; exact ⟨_, rfl⟩
 
 /-- the end on the wrong side of the start: an error -/
-theorem rangeImpl_three_dir (E : Env) (hz : E.stepIsZeroSingleton = false) (a b s : Num) (retTy : Ty)
+theorem rangeImpl_three_dir (E : Env) (a b s : Num) (hz : isZeroStep s = false) (retTy : Ty)
     (hf : isFin s = true) (hdir : dirOk (stepDown s) a b = false) :
     Fails (rangeImpl E [numVal a, numVal b, numVal s] retTy) := by
-  rw [rangeImpl_three E hz a b s retTy hf, hdir]; exact ⟨_, rfl⟩
+  rw [rangeImpl_three E a b s hz retTy hf, hdir]; exact ⟨_, rfl⟩
 
 /-- an infinite step is rejected -/
 theorem rangeImpl_three_inf (E : Env) (a b : Value) (n : Bool) (retTy : Ty) :
